@@ -555,6 +555,35 @@ Section Ctor.
   Qed.
 End Ctor.
 
+(* merge_chains terminates with no nested Chain left at the top level (the fuel = nesting depth suffices) *)
+Section Flat.
+  Context {A : Type}.
+  Notation bij := (bij A).
+  Definition maxdepth (bs : list bij) : nat := fold_right Nat.max 0 (map chain_depth bs).
+  Lemma is_chain_depth (bs : list bij) : existsb is_chain bs = false <-> maxdepth bs = 0.
+  Proof.
+    unfold maxdepth. induction bs as [|b bs IH]; cbn [existsb map fold_right]; [tauto|].
+    rewrite orb_false_iff, IH.
+    destruct b; cbn [is_chain chain_depth]; (split; [intros [H1 H2]; try discriminate; lia | intros H; split; [try reflexivity; lia | lia]]).
+  Qed.
+  Lemma merge_pass_depth (bs : list bij) : maxdepth (merge_pass bs) <= pred (maxdepth bs).
+  Proof.
+    unfold maxdepth. induction bs as [|b bs IH]; cbn [merge_pass flat_map map fold_right]; [lia|].
+    change (flat_map _ bs) with (merge_pass bs). rewrite map_app.
+    assert (G : forall l1 l2 : list nat, fold_right Nat.max 0 (l1 ++ l2) = Nat.max (fold_right Nat.max 0 l1) (fold_right Nat.max 0 l2)).
+    { induction l1; intros; cbn; [reflexivity|]. rewrite IHl1. lia. }
+    rewrite G. destruct b; cbn [chain_depth map fold_right]; try lia.
+  Qed.
+  Theorem merge_loop_flat fuel : forall bs : list bij, maxdepth bs <= fuel -> existsb is_chain (merge_loop fuel bs) = false.
+  Proof.
+    induction fuel as [|f IH]; intros bs H; cbn [merge_loop]; destruct (existsb is_chain bs) eqn:E; auto.
+    - exfalso. assert (E' : maxdepth bs = 0) by lia. apply is_chain_depth in E'. congruence.
+    - apply IH. pose proof (merge_pass_depth bs). lia.
+  Qed.
+  Theorem merge_chains_flat (bs : list bij) : exists l, merge_chains bs = Chain l /\ existsb is_chain l = false.
+  Proof. eexists. split; [reflexivity|]. apply merge_loop_flat. apply le_n. Qed.
+End Flat.
+
 (* an exact carrier for the non-vacuity examples: the integers (transcendentals are not used by them) *)
 Definition ZOps : NumOps Z := {|
   n_add := Z.add; n_sub := Z.sub; n_mul := Z.mul; n_div := Z.div; n_neg := Z.opp; n_abs := Z.abs; n_sign := Z.sgn;
